@@ -469,6 +469,16 @@ func (f *FnVC) specUnary(env *SEnv, e *spec.Expr, want types.Type) (Val, error) 
 		}
 		return Val{T: app(op, x.T.Sort, x.T), Typ: x.Typ}, nil
 	case "&":
+		// address of an address-taken local variable
+		if a := e.Args[0]; a.Op == "id" {
+			if av, ok := f.addrNames[a.Tok]; ok {
+				for it := f.curNode.it; it >= 0; it-- {
+					if pv, ok := f.vals[vkey{av, it}]; ok {
+						return pv, nil
+					}
+				}
+			}
+		}
 		// address of an aggregate field / of a field
 		x, err := f.evalSpec(env, e.Args[0], nil)
 		if err != nil {
@@ -684,6 +694,15 @@ func (f *FnVC) specCall(env *SEnv, e *spec.Expr, want types.Type) (Val, error) {
 				return Val{}, fmt.Errorf("arg(%s,%d): no such argument", args[0].Tok, i)
 			}
 			return s.args[i], nil
+		case "at":
+			// at(label, e): e evaluated in the state right after the labelled call returned
+			s, ok := f.sites[args[0].Tok]
+			if !ok || s.postSt == nil {
+				return Val{}, fmt.Errorf("at(%s, ...): labelled call site not executed before this point (or merged label)", args[0].Tok)
+			}
+			ch := env.child()
+			ch.cur = s.postSt
+			return f.evalSpec(ch, args[1], want)
 		case "ite":
 			c, err := f.evalSpec(env, args[0], boolT)
 			if err != nil {
